@@ -502,7 +502,9 @@ def _reference_failures(n, seed, limit=3):
                     break
             if prob is None and len(runs):
                 col = flt.collapse_plateaus(out, coord='time')
-                for b, (s, e) in enumerate(runs):
+                if col.sizes.get('plateau') != len(runs):
+                    prob = f'collapse_plateaus returns {col.sizes.get("plateau")} elements for {len(runs)} plateaus (sizes of the plateaus: {[e_ - s_ for s_, e_ in runs]})'
+                for b, (s, e) in enumerate(runs if prob is None else []):
                     if not np.isclose(col.data.values[b], y[s:e].mean()):
                         prob = f'collapsed value of plateau {b} is not the mean'
                     ed = col.coords['time']['plateau', b]
